@@ -703,6 +703,20 @@ func (g *genState) fillDeps(c *chain, managed []Dep, bom bool) {
 			}
 			d.Scope = pick(rng, scopes)
 			d.Optional = pick(rng, optionals)
+			if rng.Intn(12) == 0 {
+				// <optional> given through a property whose name has capitals
+				// (property names are case sensitive), defined in this file.
+				name := pick(rng, []string{"bindingIsOptional", "isOptional", "OPT"})
+				has := false
+				for _, kv := range g.l.Poms[f].Props {
+					has = has || kv[0] == name
+				}
+				if !has {
+					g.l.Poms[f].Props = append(g.l.Poms[f].Props, [2]string{name, pick(rng, []string{"true", "false"})})
+				}
+				d.Optional = "${" + name + "}"
+				g.tag("dep:optional-by-property")
+			}
 			d.Excl = g.exclusions()
 			if !bom && rng.Intn(6) == 0 {
 				if pr := g.profileFor(c, f); !hasKey(pr.Deps, d) {
